@@ -325,6 +325,22 @@ func (r *caseRun) opGetFail() {
 	r.c.Branch("getmessage-fails-ignore-only")
 }
 
+// opAppendNoRows appends a log entry that decompresses but yields no rows (kind 1: an empty block,
+// Replica returns at rowsLen == 0; kind 2: UnmarshalRows panics, partition.replica recovers). In both
+// Replica's deferred function commits the sequence and does NOT call IgnoreMessage.
+func (r *caseRun) opAppendNoRows(kind int) {
+	if r.n.part == nil {
+		return
+	}
+	e := entry{Seq: r.laneLen(), Bad: true, Empty: kind, Leader: r.cur, Slot: int64(len(r.entries))}
+	if !r.guard("append", func() error { return r.n.appendEntry(e) }) {
+		return
+	}
+	r.entries = append(r.entries, e)
+	r.c.Op(r.lop("appendbad"), r.P())
+	r.c.Branch([]string{"", "empty-block-entry", "unmarshal-panic-entry"}[kind])
+}
+
 func (r *caseRun) opAppend(m, t int) {
 	if r.n.part == nil {
 		return
@@ -510,6 +526,9 @@ func (r *caseRun) opApplyInj(inj int) {
 	if !ok {
 		return
 	}
+	if e.Empty != 0 {
+		inj = injNone // WriteRows is not reached: one op, the model event applyNoRows
+	}
 	before := r.n.pos()
 	h := r.n.hooks
 	valid := false
@@ -622,7 +641,15 @@ func (r *caseRun) opApplyInj(inj int) {
 	} else {
 		r.c.Branch("apply-rejected")
 	}
-	if !fine {
+	if !fine && e.Empty != 0 {
+		r.c.Op(r.lop("norows"), r.P())
+		r.c.Branch("replica-no-rows-commit-only")
+		after := r.n.pos()
+		if after.ack != before.ack {
+			// the property does not forbid it (the entry has no rows), the model does not do it: shows as a disagreement
+			r.c.Branch("norows-acknowledged")
+		}
+	} else if !fine {
 		r.c.Op(r.lop("apply"), r.P())
 	} else if !valid {
 		// rejected: Replica returned right after ValidateSequence; the remaining steps are no-ops
@@ -1980,6 +2007,41 @@ func (r *caseRun) getFailAfterUnflushed() {
 	r.opCrash()
 }
 
+// noRowsEntries: entries that decompress but yield no rows (empty block, unmarshal panic) between valid
+// ones: Replica commits their sequence without acknowledging anything; crash before and after a flush.
+func (r *caseRun) noRowsEntries() {
+	r.opAppend(0, 0)
+	r.opApply()
+	r.opAppendNoRows(1)
+	r.opApply()
+	r.opAppendNoRows(2)
+	r.opApply()
+	r.opCrash()
+	if r.stop() {
+		return
+	}
+	r.applyAll()
+	r.opFlushMeta()
+	r.opFlushIndex()
+	r.opFlushData(noCrash, false)
+	// behind a fully flushed log: the family's sequence moves past the stored one, the ack stays
+	r.opAppendNoRows(2)
+	r.opApply()
+	r.opAppendNoRows(1)
+	r.opGetFail()
+	r.opAppend(1, 1)
+	r.opApply()
+	r.opCrash()
+	if r.stop() {
+		return
+	}
+	r.applyAll()
+	r.opFlushMeta()
+	r.opFlushIndex()
+	r.opFlushData(noCrash, false)
+	r.opCrash()
+}
+
 // replicaInsideFlush: entry 0 unflushed in the memory database; Flush switches it to immutable, and
 // before the table is written a whole Replica of entry 1 runs; crash before the next flush.
 func (r *caseRun) replicaInsideFlush() {
@@ -2402,7 +2464,11 @@ func (r *caseRun) randomCase(disciplined bool) {
 		switch k := rng.Intn(100); {
 		case k < 4:
 			// a log entry that does not decompress
-			r.opAppendBad()
+			if kind := len(r.entries) % 3; kind == 0 {
+				r.opAppendBad()
+			} else {
+				r.opAppendNoRows(kind)
+			}
 			switch rng.Intn(3) {
 			case 1:
 				r.applyAll()
@@ -2585,7 +2651,7 @@ func (r *caseRun) randomCase(disciplined bool) {
 // ---------------------------------------------------------------- Run
 
 // lastScripted: cases 0..lastScripted are fixed histories
-const lastScripted = 32
+const lastScripted = 33
 
 func (area) Run(c *core.Ctx) error {
 	repo := os.Getenv("VERIF_REPO")
@@ -2690,6 +2756,9 @@ func (area) Run(c *core.Ctx) error {
 				c.Branch("crash-at-manifest-record-scripted")
 				x := [][3]int{{innerData, 0, 0}, {innerData, 0, 1}, {innerMeta, 0, 1}, {innerMeta, 1, 0}, {innerIndex, 0, 1}, {innerIndex, 2, 0}}[i-26]
 				r.crashAtManifestRecord(x[0], x[1], x[2] == 1)
+			case i == 33:
+				c.Branch("no-rows-entries")
+				r.noRowsEntries()
 			case i == 32:
 				c.Branch("getmessage-fails-after-unflushed")
 				r.getFailAfterUnflushed()
